@@ -10,7 +10,7 @@ var verifHarnesses = map[string]func(){
 
 func VerifC11TokenIds() {
 	repeat := verifParam("REPEAT", 1)
-	names := []string{"id", "num", "str", "if"}
+	names := []string{"nan", "naN", "Nan", "if"}
 	n := verifParam("N", 3)
 	build := func() *LexPart {
 		lp := &LexPart{TokDefs: map[string]*LexTokDef{}}
